@@ -293,3 +293,15 @@ def line_of(op):
     if k in ('dateadd', 'timeadd'):
         return 'tx.%s\t%s\t%s' % (k, cps(op[1]), cps(op[2]))
     raise ValueError(k)
+
+
+def report(ctx, kind, signature, detail, failing_input=None, property_fails=None, cap=6):
+    """ctx.report with a per-signature cap for signatures that are not (yet) listed as known findings, so that one
+    frequent finding cannot use up the 200 slots of the verdict and hide a different one; every case is counted in
+    the evidence (`finding_counts`)."""
+    counts = ctx.extra.setdefault('finding_counts', {})
+    key = '%s:%s' % (kind, signature)
+    counts[key] = counts.get(key, 0) + 1
+    known = any(f.get('property') == ctx.prop and f.get('signature') == signature for f in ctx.known.get('findings', []))
+    if known or counts[key] <= cap:
+        ctx.report(kind, signature, detail, failing_input=failing_input, property_fails=property_fails)
